@@ -5,6 +5,7 @@
 # change under /verif/seeded/<Cxx>-<k>/.
 set -u
 id=$1; k=$2; tier=${3:-quick}; extra=${4:-}
+if [ -z "$extra" ] && [ -f /tmp/seed/$id-out/$k/meta.json ]; then extra=$(python3 -c "import json;print(json.load(open('/tmp/seed/$id-out/$k/meta.json')).get('demo_flags','') or '')" 2>/dev/null); fi
 src=/tmp/seed/$id-out/$k
 [ -d "$src" ] || src=/verif/seeded/$id-$k
 export GOFLAGS=-mod=mod GOPROXY=off GOSUMDB=off GOTOOLCHAIN=local
